@@ -104,11 +104,25 @@ def hazards():
     out["tla.two"] = "function(a, b) [a, b]"
     out["tla.one"] = "function(a) a"
     out["tla.notfunc"] = "{a: 1}"
+    # imports of files that fail, through different importers (the per-state file cache must not remember a failure as anything else)
+    out["imp.err.direct"] = "import 'err.libsonnet'"
+    out["imp.err.field"] = "{x: import 'err.libsonnet'}.x"
+    out["imp.err.local"] = "local e = import 'err.libsonnet'; [1, e][1]"
+    out["imp.err.lazy"] = "local e = import 'err.libsonnet'; {a: 1, b:: e}"
+    out["imp.assert.direct"] = "import 'chk.libsonnet'"
+    out["imp.assert.field"] = "(import 'chk.libsonnet').replicas"
+    out["imp.ok.then"] = "[import 'ok.libsonnet', importstr 'ok.libsonnet']"
+    out["imp.deep"] = "local f(n) = if n == 0 then (import 'ok.libsonnet').v else 1 + f(n - 1); f(40)"
+    out["imp.mix"] = "local a = import 'ok.libsonnet'; {v: a.v, e: (import 'err.libsonnet')}"
     return out
 
 
+FILES = {"err.libsonnet": "error 'E'", "chk.libsonnet": "{assert self.replicas > 0 : 'replicas must be positive', replicas: 0}",
+         "ok.libsonnet": "{v: 7}"}
+
+
 CONFIGS = {
-    "min": {}, "default": {"manifest": "default"}, "yaml": {"manifest": "yaml2"}, "string": {"manifest": "tostring"},
+    "min": {}, "stack": {}, "default": {"manifest": "default"}, "yaml": {"manifest": "yaml2"}, "string": {"manifest": "tostring"},
     "ext.ok": {"ext": {"a": {"str": "A"}, "b": {"code": "1 + 1"}, "c": {"code": "{x: 1}"}}},
     "ext.err": {"ext": {"a": {"code": "error 'EA'"}, "b": {"code": "error 'EB'"}, "c": {"code": "1 +"}}},
     "ext.missing": {"ext": {"a": {"str": "A"}}},
@@ -126,6 +140,8 @@ def configs_for(name):
         return ["ext.ok", "ext.err", "ext.missing"]
     if name.startswith("tla."):
         return [c for c in CONFIGS if c.startswith("tla.")] + ["min"]
+    if name == "imp.deep":
+        return ["min", "stack"]
     if name.startswith(("obj.manifest", "obj.merge", "err.fields", "err.nested", "trace.fields")):
         return ["min", "default", "yaml", "string"]
     return ["min"]
@@ -180,6 +196,10 @@ def run(chk):
     for pn, src in sorted(progs.items()):
         for cn in configs_for(pn):
             cmd = {"cmd": "eval", "src": src, "want_trace": True}
+            if pn.startswith("imp."):
+                cmd["files"] = FILES
+                if pn == "imp.deep" and cn == "stack":
+                    cmd["max_stack"] = 30
             cmd.update(CONFIGS[cn])
             items.append((pn, cn, cmd))
     chk.extra["programs"] = len(progs)
@@ -239,7 +259,7 @@ def run(chk):
         if steps:
             stepc = [{k: v for k, v in c.items() if k != "cmd"} for c in cmds]
             # a max_stack override inside steps stays local to its step (limit guard is dropped at step end)
-            r = run_cmds([{"cmd": "eval", "id": 0, "steps": stepc}], parallel=1, timeout_per_case=600)[0]
+            r = run_cmds([{"cmd": "eval", "id": 0, "files": FILES, "steps": stepc}], parallel=1, timeout_per_case=600)[0]
             res = r.get("results") if r.get("k") == "seq" else [r] * len(cmds)
         else:
             res = run_cmds(numbered(cmds), parallel=1, chunk=len(cmds), timeout_per_case=60)
